@@ -118,15 +118,20 @@ def work(ctx, task):
                 if pi % n != i:
                     continue
                 acc.count('programs')
-                for t0 in sp['t0']:
-                    world.start()
-                    for m in gen.T0S[t0]:
-                        world.mutate(m)
-                    world.build({'level': sp['level'], 'root': [dict(a)]})
-                    if world.diverged:
-                        continue
-                    acc.count('histories')
-                    run_build(world, acc, {'level': sp['level'], 'root': [dict(b)]}, wf, 'pair')
+                top = a['p'].split('/')[0]
+                # between the builds: nothing, or the whole top-level directory of the first output is removed by hand
+                for between in ([None, ['rmtree', top]] if '/' in a['p'] else [None]):
+                    for t0 in sp['t0']:
+                        world.start()
+                        for m in gen.T0S[t0]:
+                            world.mutate(m)
+                        world.build({'level': sp['level'], 'root': [dict(a)]})
+                        if world.diverged:
+                            continue
+                        if between is not None and not world.mutate(between):
+                            continue
+                        acc.count('histories')
+                        run_build(world, acc, {'level': sp['level'], 'root': [dict(b)]}, wf, 'pair')
         return acc.result(world, capped)
     for pi, prog in enumerate(gen.family(sp)):
         if pi % n != i:
